@@ -24,13 +24,14 @@ type specDesc struct {
 }
 
 type srvDesc struct {
-	Max    int      `json:"max"`    // MaxVersion (771 / 772)
-	HRR    bool     `json:"hrr"`    // CurvePreferences = [P-384]: every parrot used here needs a HelloRetryRequest
-	Keys   int      `json:"keys"`   // which ticket key / ticket store the server owns
-	Store  bool     `json:"store"`  // true: WrapSession/UnwrapSession label store; false: SetSessionTicketKeys
-	Cookie int      `json:"cookie"` // > 0: the HelloRetryRequest carries a cookie of this many bytes (verif hook)
-	Alpn   []string `json:"alpn"`   // Config.NextProtos of the server
-	Nonce  int      `json:"nonce"`  // > 0: TLS 1.3 tickets carry a ticket_nonce of this many bytes (verif hook)
+	Max     int      `json:"max"`     // MaxVersion (771 / 772)
+	HRR     bool     `json:"hrr"`     // CurvePreferences = [P-384]: every parrot used here needs a HelloRetryRequest
+	Keys    int      `json:"keys"`    // which ticket key / ticket store the server owns
+	Store   bool     `json:"store"`   // true: WrapSession/UnwrapSession label store; false: SetSessionTicketKeys
+	Cookie  int      `json:"cookie"`  // > 0: the HelloRetryRequest carries a cookie of this many bytes (verif hook)
+	Alpn    []string `json:"alpn"`    // Config.NextProtos of the server
+	Nonce   int      `json:"nonce"`   // > 0: TLS 1.3 tickets carry a ticket_nonce of this many bytes (verif hook)
+	Suite13 int      `json:"suite13"` // > 0: the TLS 1.3 server selects this cipher suite (verif hook)
 }
 
 type opDesc struct {
@@ -127,8 +128,8 @@ func (w *world) serverConfig(cd *connDesc, wrapped *[][]byte) *tls.Config {
 		cfg.CurvePreferences = []tls.CurveID{tls.CurveP384}
 	}
 	cfg.NextProtos = cd.Srv.Alpn
-	if cd.Srv.Cookie > 0 || cd.Srv.Nonce > 0 {
-		ov := &tls.VerifOverride{}
+	if cd.Srv.Cookie > 0 || cd.Srv.Nonce > 0 || cd.Srv.Suite13 > 0 {
+		ov := &tls.VerifOverride{ForceSuite13: uint16(cd.Srv.Suite13)}
 		if cd.Srv.Cookie > 0 {
 			ov.HRRCookie = make([]byte, cd.Srv.Cookie)
 			for i := range ov.HRRCookie {
